@@ -1,6 +1,6 @@
-(* C04 — property theorems (statements only; proofs live in Proofs.v). *)
+(* C04 — property theorems (statements only; proofs live in Proofs*.v). *)
 From Coq Require Import ZArith QArith Qround Bool List.
-Require Import QV.C04.Model QV.C04.Spec QV.C04.Proofs.
+Require Import QV.C04.Model QV.C04.Spec QV.C04.Proofs QV.C04.Proofs2 QV.C04.Proofs3.
 Import ListNotations.
 Open Scope Q_scope.
 
@@ -15,8 +15,8 @@ Theorem C04_waveform_duration_is_loop_duration :
 Proof. exact wf_duration_is_loop_duration. Qed.
 Print Assumptions C04_waveform_duration_is_loop_duration.
 
-(* ... and create_program only builds such trees *)
-Theorem C04_created_programs_wellformed : forall p e kids, cp p e = Ok kids -> Forall wfl kids.
+(* ... and create_program only builds such trees (any reading of comparisons, any ghost switch) *)
+Theorem C04_created_programs_wellformed : forall c p e kids, cp c p e = Ok kids -> Forall wfl kids.
 Proof. exact Lp_all. Qed.
 Print Assumptions C04_created_programs_wellformed.
 
@@ -36,11 +36,11 @@ Theorem C04_no_accumulation : forall n d, total (wrap_node n [Leaf 1 d]) == inje
 Proof. exact rep_leaf_exact. Qed.
 Print Assumptions C04_no_accumulation.
 
-(* program side of the property, all template kinds, unbounded: whenever the template denotes a duration d
-   (guard_C04: den <> None), Loop.duration, the duration of the single waveform and the sum of the pieces are all d;
-   an empty program means d = 0 *)
-Theorem C04_program_views_agree : forall p e d, den p (qenv_of e) = Some d ->
-  forall o, create_program p e = Ok o ->
+(* program side, all template kinds, unbounded: whenever the template denotes a duration d and the binary and the
+   decimal reading of the comparisons build the same program (g_view), Loop.duration, the duration of the single
+   waveform and the sum of the pieces are all d; an empty program means d = 0 *)
+Theorem C04_program_views_agree : forall p e d, g_view p e = true -> den p (qenv_of e) = Some d ->
+  forall o, create_program real p e = Ok o ->
   match o with
   | None => d == 0
   | Some prog => loop_duration prog == d /\ (exists q, wf_duration prog = Some q /\ q == d) /\ sum_pieces 1 prog == d
@@ -48,49 +48,32 @@ Theorem C04_program_views_agree : forall p e d, den p (qenv_of e) = Some d ->
 Proof. exact program_views_agree. Qed.
 Print Assumptions C04_program_views_agree.
 
-(* full statement for the symbolic side: the duration expression evaluates to the denoted duration *)
-Definition C04_symbolic_agrees_statement : Prop :=
-  forall p e v d, sym p e = Ok v -> den p (qenv_of e) = Some d -> time_of v == d.
+(* symbolic side, ALL template kinds: the duration expression as written by every class (incl. the for-loop
+   Piecewise/Sum/Max/ceiling closed form, Max over table channels, Max of arithmetic operands) evaluates to the
+   denoted duration *)
+Theorem C04_symbolic_agrees : forall p e v d, sym p e = Ok v -> den p (qenv_of e) = Some d -> time_of v == d.
+Proof. exact symbolic_agrees. Qed.
+Print Assumptions C04_symbolic_agrees.
 
-(* proved for templates without for-loop, table and atomic pulse arithmetic *)
-Theorem C04_symbolic_agrees_partial : forall p, simple p = true ->
-  forall e v d, sym p e = Ok v -> den p (qenv_of e) = Some d -> time_of v == d.
-Proof. exact Sp_all. Qed.
-Print Assumptions C04_symbolic_agrees_partial.
+(* a denoted duration is never negative *)
+Theorem C04_denoted_duration_nonneg : forall p e d, den p e = Some d -> 0 <= d.
+Proof. exact den_nonneg. Qed.
+Print Assumptions C04_denoted_duration_nonneg.
 
-(* all four views (fragment `simple` for the symbolic one), float parameters read as their shortest decimal *)
-Theorem C04_agree_partial : forall p e d v o,
-  simple p = true -> den p (qenv_of e) = Some d -> create_program p e = Ok o -> sym p (decimalize e) = Ok v ->
+(* all four views, all kinds, float parameters read as their shortest decimal, wherever a duration is denoted *)
+Theorem C04_agree_denoted : forall p e d v o,
+  g_view p e = true -> den p (qenv_of e) = Some d -> create_program real p e = Ok o -> sym p (decimalize e) = Ok v ->
   time_of v == d /\
   match o with
   | None => d == 0
   | Some prog => loop_duration prog == d /\ (exists q, wf_duration prog = Some q /\ q == d) /\ sum_pieces 1 prog == d
   end.
-Proof. exact agree_partial. Qed.
-Print Assumptions C04_agree_partial.
+Proof. exact agree_den. Qed.
+Print Assumptions C04_agree_denoted.
 
-(* without the guard the faithful model of the unchanged code violates the property: four input classes *)
-Theorem C04_agree_refuted_negative_count : disagrees w_negcount /\ guard_C04 (fst w_negcount) (snd w_negcount) = false.
-Proof. exact refuted_negcount. Qed.
-Print Assumptions C04_agree_refuted_negative_count.
-Theorem C04_agree_refuted_negative_duration : disagrees w_negdur /\ guard_C04 (fst w_negdur) (snd w_negdur) = false.
-Proof. exact refuted_negdur. Qed.
-Print Assumptions C04_agree_refuted_negative_duration.
-Theorem C04_agree_refuted_near_integer : disagrees w_nearint /\ guard_C04 (fst w_nearint) (snd w_nearint) = false.
-Proof. exact refuted_nearint. Qed.
-Print Assumptions C04_agree_refuted_near_integer.
-Theorem C04_agree_refuted_parallel_unequal : disagrees w_parallel /\ guard_C04 (fst w_parallel) (snd w_parallel) = false.
-Proof. exact refuted_parallel. Qed.
-Print Assumptions C04_agree_refuted_parallel_unequal.
-
-(* the hypotheses are satisfiable by non-trivial inputs *)
-Theorem C04_example_guard_satisfiable :
-  simple ex_tpl = true /\ (exists d, den ex_tpl (qenv_of ex_env) = Some d /\ d == 3000001 # 10)
-  /\ (exists prog, create_program ex_tpl ex_env = Ok (Some prog)) /\ (exists v, sym ex_tpl (decimalize ex_env) = Ok v).
-Proof. exact example_guard. Qed.
-Print Assumptions C04_example_guard_satisfiable.
 Theorem C04_example_for_loop_guard_satisfiable :
-  (exists d, den ex_for (qenv_of ex_for_env) = Some d /\ d == 9 # 4)
-  /\ exists prog, create_program ex_for ex_for_env = Ok (Some prog).
+  (exists d, den ex_for (qenv_of ex_for_env) = Some d /\ d == 9 # 2)
+  /\ (exists prog, create_program real ex_for ex_for_env = Ok (Some prog)) /\ g_view ex_for ex_for_env = true
+  /\ exists v, sym ex_for (decimalize ex_for_env) = Ok v.
 Proof. exact example_for. Qed.
 Print Assumptions C04_example_for_loop_guard_satisfiable.
